@@ -337,13 +337,6 @@ theorem remarshal_parse_gen {β : Type} (T : Tables) (hT : T.OK) (C : BodyCodec 
 
 /-! ### executable form of the hypotheses (for the driver's certification and for closed examples) -/
 
-def attrFwdB (a : Attr) (v : PyVal) : Bool :=
-  match v with
-  | .none => true
-  | .int _ _ => a == .replySerial || a == .unixFds
-  | .str .plain _ => a != .replySerial && a != .unixFds
-  | _ => false
-
 theorem attrFwdB_sound (a : Attr) (v : PyVal) (h : attrFwdB a v = true) : AttrFwd a v := by
   cases v <;> simp only [attrFwdB] at h <;> try (cases h; done)
   · exact Or.inl rfl
@@ -352,14 +345,6 @@ theorem attrFwdB_sound (a : Attr) (v : PyVal) (h : attrFwdB a v = true) : AttrFw
   · rename_i c s
     cases c <;> simp only [] at h <;> try (cases h; done)
     cases a <;> simp at h <;> exact Or.inr ⟨s, rfl⟩
-
-/-- The hypotheses `hshape` and `hin` of `forward_parse`, and the NUL condition, as a Boolean. -/
-def fwdOKB {β : Type} (T : Tables) (m : Msg β) : Bool :=
-  Attr.all.all (fun a => attrFwdB a (m.attrs a) &&
-    (a == .sender || isNone (m.attrs a) || (T.headerAttrs m.cls).any (fun ent => ent.1 == a))) &&
-  (match m.attrs .signature with
-   | .str _ s => !s.contains nul
-   | _ => true)
 
 theorem fwdOKB_sound {β : Type} (T : Tables) (m : Msg β) (h : fwdOKB T m = true) :
     (∀ a, AttrFwd a (m.attrs a)) ∧
